@@ -281,57 +281,62 @@ def run_singular(key):
 
 
 def subchecks(tier, seed):
+    seeds_ = [seed] if tier != 'thorough' else [seed] + [seed * 1000 + v for v in range(1, 4)]
     thorough = tier == 'thorough'
     subs = []
     names = [c + s for c in CORE for s in ('', '+ban')]
     Fs = (1, 2, 3, 5, 32) if thorough else (1, 3, 5)
 
     def name_cases():
-        for name in names:
-            for ref in (None, 0, 1, 2):
-                for atfk in ('default', 'trace', 'use_eig'):
-                    for D in (2, 3, 5):
-                        for F in Fs:
-                            for nlead in (0, 1, 2):
-                                if atfk != 'default' and (ref not in (None, 0) or D == 5):
-                                    continue
-                                core = name[:-4] if name.endswith('+ban') else name
-                                needs_ref = core.split('+')[-1] in ('mvdr_souden', 'wmwf')
-                                if ref is not None and (not needs_ref or ref >= D):
-                                    continue
-                                if needs_ref and ref is None and nlead != 0:
-                                    continue
-                                yield (name, ref, atfk, D, F, nlead, seed)
+        for seed in seeds_:
+            for name in names:
+                for ref in (None, 0, 1, 2):
+                    for atfk in ('default', 'trace', 'use_eig'):
+                        for D in (2, 3, 5):
+                            for F in Fs:
+                                for nlead in (0, 1, 2):
+                                    if atfk != 'default' and (ref not in (None, 0) or D == 5):
+                                        continue
+                                    core = name[:-4] if name.endswith('+ban') else name
+                                    needs_ref = core.split('+')[-1] in ('mvdr_souden', 'wmwf')
+                                    if ref is not None and (not needs_ref or ref >= D):
+                                        continue
+                                    if needs_ref and ref is None and nlead != 0:
+                                        continue
+                                    yield (name, ref, atfk, D, F, nlead, seed)
     subs.append(Sub('wrapper_names', ('name', 'ref', 'atf', 'D', 'F', 'nlead', 'seed'), name_cases,
                     run_names, bound=dict(names=names, F=list(Fs))))
 
     def apply_cases():
-        for lead in ((), (2,), (2, 3)):
-            for F in (1, 2, 5):
-                for D in (1, 2, 3, 8):
-                    for T in (1, 4):
-                        yield (lead, F, D, T, seed)
+        for seed in seeds_:
+            for lead in ((), (2,), (2, 3)):
+                for F in (1, 2, 5):
+                    for D in (1, 2, 3, 8):
+                        for T in (1, 4):
+                            yield (lead, F, D, T, seed)
     subs.append(Sub('apply_beamforming_vector', ('lead', 'F', 'D', 'T', 'seed'), apply_cases, run_apply))
 
     def phase_cases():
-        for lead in ((), (1,), (2,), (3,), (2, 2), (2, 3), (3, 2, 2)):
-            for F in (1, 2, 3, 5, 32):
-                for D in (1, 2, 3, 8):
-                    for kind in ('generic', 'aligned', 'flip', 'zero_bin', 'orthogonal'):
-                        yield (lead, F, D, kind, seed)
+        for seed in seeds_:
+            for lead in ((), (1,), (2,), (3,), (2, 2), (2, 3), (3, 2, 2)):
+                for F in (1, 2, 3, 5, 32):
+                    for D in (1, 2, 3, 8):
+                        for kind in ('generic', 'aligned', 'flip', 'zero_bin', 'orthogonal'):
+                            yield (lead, F, D, kind, seed)
     subs.append(Sub('phase_correction', ('lead', 'F', 'D', 'kind', 'seed'), phase_cases, run_phase))
 
     def sing_cases():
-        for pattern in itertools.product((0, 1, 2), repeat=4):
-            for which in ('noise', 'target', 'both'):
-                for D in (2, 3):
-                    for fn, mus in (('souden', (None,)), ('wmwf', (1.0, 0.5, 0.0))):
-                        for mu in mus:
-                            rd = bool(1 in pattern and which in ('noise', 'both'))
-                            for real_noise in (False, True):
-                                if real_noise and (D == 3 or mu == 0.5):
-                                    continue
-                                yield (pattern, which, D, fn, mu, rd, real_noise, seed)
+        for seed in seeds_:
+            for pattern in itertools.product((0, 1, 2), repeat=4):
+                for which in ('noise', 'target', 'both'):
+                    for D in (2, 3):
+                        for fn, mus in (('souden', (None,)), ('wmwf', (1.0, 0.5, 0.0))):
+                            for mu in mus:
+                                rd = bool(1 in pattern and which in ('noise', 'both'))
+                                for real_noise in (False, True):
+                                    if real_noise and (D == 3 or mu == 0.5):
+                                        continue
+                                    yield (pattern, which, D, fn, mu, rd, real_noise, seed)
     subs.append(Sub('singular_bins',
                     ('pattern', 'which', 'D', 'fn', 'mu', 'rank_deficient_noise', 'real_noise', 'seed'),
                     sing_cases, run_singular,
